@@ -550,6 +550,20 @@ def C20(ctx):
                           "expected": "MutualExclusion violated"})
     if r["invariant"] != "MutualExclusion":
         raise vrun.ToolError("the broken lock model should violate MutualExclusion")
+    # bonus: TLAPS proof that MutualExclusion holds for ANY number of threads and locks (the model
+    # checker covers 3 x 2 x 2); a failure of the proof tool is reported in the evidence, the level
+    # claimed does not depend on it
+    import re
+    import shutil
+    pd = os.path.join(ctx.work, "proof")
+    os.makedirs(pd, exist_ok=True)
+    shutil.copy(os.path.join(vrun.SPEC, "proofs", "LockProof.tla"), pd)
+    rc, out = vrun.sh(["tlapm", "--threads", "8", "-I", vrun.SPEC, "LockProof.tla"], timeout=600, cwd=pd)
+    m = re.search(r"All (\d+) obligations? proved", out)
+    ctx.cov["tlaps_proof"] = ({"theorem": "LockProof!Safety: Init /\\ [][Next]_vars => []MutualExclusion for arbitrary Threads, Locks, Calls",
+                               "obligations": int(m.group(1)), "discharged": int(m.group(1)),
+                               "checker_cmd": "tlapm --threads 8 -I spec spec/proofs/LockProof.tla"}
+                              if m else {"status": "not re-checked in this run", "tail": out[-300:]})
     binary = vrun.cargo_build("release")
     runs, closures = 0, 0
     files = []
